@@ -13,7 +13,7 @@ use simcore::{ddmin, Rng};
 use std::fmt::Write as _;
 use std::panic::{catch_unwind, AssertUnwindSafe};
 use vbridge::ffi::View as VView;
-use vbridge::ffi::{ErrPod, ErrTok, OutPair, Pod, Tok};
+use vbridge::ffi::{ErrOut, ErrPod, ErrTok, OutOwned, OutPair, Pod, Tok};
 use vbridge::Token;
 
 pub const NH: usize = 6;
@@ -41,6 +41,8 @@ extern "C" {
     fn Tok_try_new(ok: bool) -> DiplomatResult<Box<Tok>, Box<ErrTok>>;
     fn Tok_maybe_new(some: bool) -> Option<Box<Tok>>;
     fn Tok_try_new_pod_err(ok: bool) -> DiplomatResult<Box<Tok>, ErrPod>;
+    fn Tok_make_owned_pair(some: bool) -> OutOwned;
+    fn Tok_try_new_err_out(ok: bool) -> DiplomatResult<Box<Tok>, ErrOut>;
     fn Tok_id(this: &Tok) -> u32;
     fn Tok_bump(this: &mut Tok) -> u32;
     fn Tok_peer<'a>(this: &'a Tok) -> &'a Tok;
@@ -218,6 +220,10 @@ pub enum Op {
     TryNew { h: usize, ok: bool },
     MaybeNew { h: usize, some: bool },
     TryNewPodErr { h: usize, ok: bool },
+    /// an out-struct owning two objects (h and d receive them)
+    OwnedPair { h: usize, d: usize, some: bool },
+    /// Result whose error type is an out-struct owning an object
+    TryNewErrOut { h: usize, ok: bool },
     Id { h: usize },
     Bump { h: usize },
     Peer { h: usize },
@@ -273,6 +279,8 @@ pub fn op_text(op: &Op) -> String {
         TryNew { h, ok } => format!("try_new {} {}", h, b(*ok, "ok", "err")),
         MaybeNew { h, some } => format!("maybe_new {} {}", h, b(*some, "some", "none")),
         TryNewPodErr { h, ok } => format!("try_new_pod_err {} {}", h, b(*ok, "ok", "err")),
+        OwnedPair { h, d, some } => format!("owned_pair {} {} {}", h, d, b(*some, "some", "none")),
+        TryNewErrOut { h, ok } => format!("try_new_err_out {} {}", h, b(*ok, "ok", "err")),
         Id { h } => format!("id {}", h),
         Bump { h } => format!("bump {}", h),
         Peer { h } => format!("peer {}", h),
@@ -326,6 +334,8 @@ fn parse_op(t: &[&str]) -> Result<Op, String> {
         "try_new" => TryNew { h: hs(1)?, ok: flag(2, "ok") },
         "maybe_new" => MaybeNew { h: hs(1)?, some: flag(2, "some") },
         "try_new_pod_err" => TryNewPodErr { h: hs(1)?, ok: flag(2, "ok") },
+        "owned_pair" => OwnedPair { h: hs(1)?, d: hs(2)?, some: flag(3, "some") },
+        "try_new_err_out" => TryNewErrOut { h: hs(1)?, ok: flag(2, "ok") },
         "id" => Id { h: hs(1)? },
         "bump" => Bump { h: hs(1)? },
         "peer" => Peer { h: hs(1)? },
@@ -527,6 +537,37 @@ impl<'t> Exec<'t> {
                     Ok(t) if *ok => self.put_tok(*h, t),
                     Err(e) if !*ok && e.code == -7 => self.ctr.inc("fault_arm_err_fired"),
                     _ => return Err(self.v("O5-value-integrity", "try_new_pod_err returned the wrong arm".into())),
+                }
+            }
+            OwnedPair { h, d, some } => {
+                if self.hs[*h].is_some() || self.hs[*d].is_some() || h == d {
+                    return Ok(false);
+                }
+                // the C caller receives the struct by value and now owns what its pointer fields point at
+                let p = unsafe { Tok_make_owned_pair(*some) };
+                if p.n != 77 || p.b.is_some() != *some {
+                    return Err(self.v("O5-value-integrity", "make_owned_pair returned wrong fields".into()));
+                }
+                let OutOwned { a, b: second, .. } = p;
+                self.put_tok(*h, a);
+                match second {
+                    Some(t2) => self.put_tok(*d, t2),
+                    None => self.ctr.inc("fault_arm_none_fired"),
+                }
+                self.ctr.inc("out_struct_owning_objects_returned");
+            }
+            TryNewErrOut { h, ok } => {
+                if self.hs[*h].is_some() {
+                    return Ok(false);
+                }
+                match split_result(unsafe { Tok_try_new_err_out(*ok) }) {
+                    Ok(t) if *ok => self.put_tok(*h, t),
+                    Err(e) if !*ok && e.code == -3 => {
+                        self.ctr.inc("fault_arm_err_fired");
+                        let ErrOut { culprit, .. } = e;
+                        self.put_err(*h, culprit)
+                    }
+                    _ => return Err(self.v("O5-value-integrity", "try_new_err_out returned the wrong arm".into())),
                 }
             }
             Id { h } => {
@@ -1104,6 +1145,8 @@ fn op_kind(op: &Op) -> u32 {
         TryNew { ok, .. } => 2 + *ok as u32,
         MaybeNew { some, .. } => 4 + *some as u32,
         TryNewPodErr { ok, .. } => 6 + *ok as u32,
+        OwnedPair { some, .. } => 69 + *some as u32,
+        TryNewErrOut { ok, .. } => 71 + *ok as u32,
         Id { .. } => 8,
         Bump { .. } => 9,
         Peer { .. } => 10,
@@ -1286,7 +1329,21 @@ pub fn gen_trace(seed: u64, run: u64, c12: bool) -> Trace {
         let ok = rng.below(16) >= err_rate;
         let dtor = rng.below(16) >= nodtor_rate;
         if kinds[h] == K::None {
-            match rng.below(6) {
+            match rng.below(8) {
+                6 => {
+                    let d = rng.below(nh as u32) as usize;
+                    ops.push(Op::OwnedPair { h, d, some: ok });
+                    if kinds[d] == K::None && d != h {
+                        kinds[h] = K::Tok;
+                        if ok {
+                            kinds[d] = K::Tok;
+                        }
+                    }
+                }
+                7 => {
+                    ops.push(Op::TryNewErrOut { h, ok });
+                    kinds[h] = if ok { K::Tok } else { K::Err };
+                }
                 0 | 1 | 2 => {
                     ops.push(Op::New { h });
                     kinds[h] = K::Tok;
